@@ -202,6 +202,22 @@ def screen_closure(ctx, s, fn):
             facts = ctx.E.facts(scr, b)
             if not any(f[0] == "variant" and f[2] == mat for f in facts):
                 okret = False
+    # ... and turns an event down only because the caller's screen said so (Mismatch or Redacted): a further condition of its
+    # own makes every query - and everything built on queries, like vanish - silently skip events that match
+    okrej, n_false = True, 0
+    for (b, i), v in an.stmt_val.items():
+        L = an.stmt_loc.get((b, i))
+        if L == ("local", 0) and v == ("const", 0, "bool"):
+            n_false += 1
+            facts = ctx.E.facts(scr, b)
+            if not any(f[0] == "variant" and f[2] != mat and isinstance(f[2], int) and 0 <= f[2] < len(names) and
+                       not (isinstance(f[1], tuple) and f[1][0] == "try") for f in facts):
+                okrej = False
+    if n_false:
+        s.add("S-DOM", scr, "reject-only-on-callers-verdict", "return-false", scr.sp, PROVED if okrej else VIOLATION,
+              "the screen turns an event down only for ScreenResult::Mismatch or Redacted" if okrej else
+              "the screen closure turns events down for a reason of its own (not the caller's Mismatch / Redacted): matching, "
+              "retrievable events are missing from every answer, and from what vanish enumerates")
     s.add("S-DOM", scr, "accept-only-match", "return-true", scr.sp, PROVED if (okret and n_true) else VIOLATION,
           "the screen lets an event through only for ScreenResult::Match" if (okret and n_true) else
           "the screen closure accepts events for an outcome other than Match")
@@ -557,7 +573,31 @@ def scrape_gate(ctx, s, fn, filt):
                     if contains_value(w, lambda x: x[0] == "call" and x[1].endswith("::since")) and \
                             contains_value(w, lambda x: x[0] == "call" and x[1].endswith("::until")):
                         win = True
+                        # the window is a directed length: zero when `since` lies beyond min(until, now)
+                        is_since = lambda x: x[0] == "call" and x[1].endswith("::since")
+                        is_until = lambda x: x[0] == "call" and x[1].endswith("::until")
+                        both = find_values(w, lambda x: x[0] in ("call", "bin") and contains_value(x, is_since) and contains_value(x, is_until))
+                        inner = min(both, key=lambda x: len(repr(x))) if both else None
+                        if inner is not None and inner[0] == "call":
+                            nm_ = inner[1].rsplit("::", 1)[-1]
+                            if nm_ == "abs_diff":
+                                win_dir = False
+                            elif nm_ == "saturating_sub" and len(inner[2]) == 2:
+                                win_dir = contains_value(inner[2][0], is_until) and contains_value(inner[2][1], is_since) and \
+                                    not contains_value(inner[2][0], is_since)
+                            else:
+                                win_dir = None
+                        else:
+                            win_dir = None
         ok = allow_false and lim and win
+        if ok:
+            wd = locals().get("win_dir")
+            s.add("S-REL", fn, "scrape-window-directed", "Err(Scraper)", fn.sp,
+                  PROVED if wd else (VIOLATION if wd is False else UNDECIDED),
+                  "the window length is min(until, now) - since, saturating at zero" if wd else
+                  ("the window length is an undirected distance (or since - until): an empty or inverted window counts as long as "
+                   "its mirror image, so a query the time allowance covers is refused as scraping" if wd is False else
+                   "how the window length is computed from since and until was not recognised: not decided"))
         s.add("S-REL", fn, "scrape-refusal-relation", "Err(Scraper)", fn.sp, PROVED if ok else VIOLATION,
               "refused iff !allow_scraping && limit > allowance && window >= max_seconds" if ok else
               "the refusal condition is not the negation of (allow || limit <= allowance || window < max_seconds): "
